@@ -53,7 +53,9 @@ BUILD = os.path.join(coqrun.VERIF, '.build')
 HEADER = c03.HEADER.replace('C03.Model.', 'C03.Model C03.ExtModel C11.Model.') + '''
 Definition TC := (toc * bool)%type.
 Definition tpar (c : TC) : option jdoc := if snd c then Some (jdoc_of (fst c)) else None.
-Inductive top := TInsert (crc : Z) (t : toc) | TCrash (crc : Z) (t : toc) | TReopen (a b : bool) | TFetch (crc : Z).
+Inductive top := TInsert (crc : Z) (t : toc) | TCrash (crc : Z) (t : toc) | TReopen (a b : bool) | TFetch (crc : Z)
+  | TDelete (crc : Z) | TBlock (crc : Z).
+Definition dremove {V} (k : list Z) (d : list (list Z * V)) := filter (fun kv => negb (zlist_eqb k (fst kv))) d.
 Definition enc_fs (fs : fsys TC) : list Z :=
   flat_map (fun nc => lenc (fst nc) ++ [b2n (snd (snd nc))]) (rw_files fs) ++ [-5]
   ++ flat_map (fun nc => lenc (fst nc) ++ [b2n (snd (snd nc))]) (ro_files fs).
@@ -64,6 +66,9 @@ Fixpoint trun (st : cstate) (fs : fsys TC) (ops : list top) : list Z :=
   | TCrash c t :: r => trun st (if c_rw st then cwrite fs c (t, false) else fs) r
   | TReopen a b :: r => trun (cinit a b fs) fs r
   | TFetch c :: r => enc_lres (cfetch tpar st fs c) ++ trun st fs r
+  (* the file system changes under a long-lived TocCache object: the file is deleted / replaced by something unreadable *)
+  | TDelete c :: r => trun st (mkFs (ro_files fs) (dremove (cache_name c) (rw_files fs))) r
+  | TBlock c :: r => trun st (cwrite fs c ([], false)) r
   end.
 '''
 
@@ -170,6 +175,26 @@ class World:
     def fetch(self, crc):
         return self.cache.fetch(crc)
 
+    def delete(self, crc):
+        nm = '%08X.json' % crc
+        p = os.path.join(self.rw, nm)
+        if os.path.isdir(p):
+            os.rmdir(p)
+        elif os.path.exists(p):
+            os.remove(p)
+        if nm in self.rw_order:
+            self.rw_order.remove(nm)
+            del self.rw_complete[nm]
+
+    def block(self, crc):
+        """replace the file by something that cannot be read as a file: a directory of that name"""
+        p = os.path.join(self.rw, '%08X.json' % crc)
+        if os.path.isfile(p):
+            os.remove(p)
+        if not os.path.isdir(p):
+            os.makedirs(p)
+        self._note(crc, False)                  # keeps its place in the listing, like dset in the model
+
     def enc_fs(self):
         out = []
         for nm in self.rw_order:
@@ -203,9 +228,23 @@ def gen_history(rng):
             continue
         ro_init.append((nm, gen_table(rng), kind != 'cut', c))
     ops = [('reopen', rng.random() < 0.7, rng.random() < 0.8)]
+    blocked = set()
     for _ in range(rng.randint(3, 12)):
         r = rng.random()
         c = rng.choice(crcs)
+        if r < 0.12:
+            ops.append(('delete', c))            # the file vanishes under the long-lived cache object
+            blocked.discard(c)
+            ops.append(('fetch', c))
+            continue
+        if r < 0.17:
+            ops.append(('block', c))
+            blocked.add(c)
+            ops.append(('fetch', c))
+            continue
+        if c in blocked:
+            ops.append(('fetch', c))
+            continue
         if r < 0.3:
             ops.append(('insert', c, gen_table(rng)))
         elif r < 0.45:
@@ -232,8 +271,15 @@ def run_history(ro_init, ops, rng):
                 w.insert(op[1], op[2])
             elif op[0] == 'crash':
                 w.crash(op[1], op[2], rng=rng)
+            elif op[0] == 'delete':
+                w.delete(op[1])
+            elif op[0] == 'block':
+                w.block(op[1])
             else:
-                obs += enc_fetch(w.fetch(op[1]))
+                try:
+                    obs += enc_fetch(w.fetch(op[1]))
+                except Exception as e:  # noqa   fetch must never raise
+                    obs += [9, c03.EXN.get(type(e).__name__, 99)]
         obs += w.enc_fs()
         extra = None
         if snapshot(w.ro) != before:
@@ -255,6 +301,10 @@ def model_history_term(ro_init, ops):
             qs.append('TInsert %d %s' % (op[1], c03.q_toc(op[2])))
         elif op[0] == 'crash':
             qs.append('TCrash %d %s' % (op[1], c03.q_toc(op[2])))
+        elif op[0] == 'delete':
+            qs.append('TDelete %d' % op[1])
+        elif op[0] == 'block':
+            qs.append('TBlock %d' % op[1])
         else:
             qs.append('TFetch %d' % op[1])
     return 'trun (mkC [] false) (mkFs %s []) [%s]' % (ro, '; '.join(qs))
@@ -1039,6 +1089,74 @@ def gen_collision_empty_cases(rng, count):
     return out
 
 
+def vanished_case(case):
+    """a cache file the LONG-LIVED TocCache object knows (found at construction, or stored by its own insert) is gone /
+    unreadable at the next connection: that must be a miss followed by a download — never an exception out of fetch(),
+    never a fetch that does not finish"""
+    from cflib.crazyflie.toccache import TocCache
+    items = [c03.ditem_unjson(d) for d in case['items']]
+    cls, crc = case['cls'], case['crc']
+    root = mkdtemp()
+
+    def fail(detail):
+        return {'class': 'vanished_cache_file_breaks_fetch', 'case': case, 'detail': detail, 'observed': detail,
+                'expected': 'miss, then the device table; fetch() never raises'}
+    try:
+        if case['known'] == 'at_construction':
+            TocCache(rw_cache=root).insert(crc, c03.mk_toc_obj(c03.toc_lists([c03.spec_elem(cls, i, it) for i, it in enumerate(items)])))
+            cache = TocCache(rw_cache=root) if not case.get('as_ro') else TocCache(ro_cache=root)
+        else:
+            cache = TocCache(rw_cache=root)
+            h, fins, exc, nreq = fetch_through_cache(cls, items, crc, cache, case['ver'])
+            if exc or fins != 1 or c03.check_table(cls, items, h):
+                return fail('first session wrong')
+        p = os.path.join(root, '%08X.json' % crc)
+        if case['how'] == 'delete':
+            os.remove(p)
+        elif case['how'] == 'directory':
+            os.remove(p)
+            os.makedirs(p)
+        elif case['how'] == 'empty':
+            open(p, 'w').close()
+        elif case['how'] == 'unreadable':
+            os.chmod(p, 0)
+        try:
+            r = cache.fetch(crc)
+        except Exception as e:  # noqa
+            return fail('TocCache.fetch raised %s: %s' % (type(e).__name__, e))
+        if r is not None and not (case['how'] == 'unreadable' and os.geteuid() == 0):
+            return fail('fetch of a vanished file returned %r' % (r,))
+        h, fins, exc, nreq = fetch_through_cache(cls, items, crc, cache, case['ver'])
+        if exc:
+            return fail('second session: callback raised %r' % (exc[0][1:],))
+        if fins != 1:
+            return fail('second session: the fetch does not finish (%d completions, %d requests)' % (fins, nreq))
+        bad = c03.check_table(cls, items, h)
+        if bad:
+            return fail('second session: %s' % bad)
+        return None
+    finally:
+        try:
+            os.chmod(os.path.join(root, '%08X.json' % crc), 0o644)
+        except OSError:
+            pass
+        shutil.rmtree(root, ignore_errors=True)
+
+
+def gen_vanished_cases(rng, count):
+    out = []
+    hows = ['delete', 'directory', 'empty', 'unreadable']
+    for k in range(count):
+        cls = rng.choice(['log', 'param'])
+        ver = rng.choice([3, 7])
+        items = c03.gen_items(rng, cls, rng.choice([1, 2, 4]), ver >= 4)
+        for it in items:
+            it['ext'] = False
+        out.append({'kind': 'vanished', 'cls': cls, 'ver': ver, 'items': [c03.ditem_json(i) for i in items], 'crc': rng.getrandbits(32),
+                    'known': 'at_construction' if k % 2 else 'own_insert', 'as_ro': k % 4 == 3, 'how': hows[(k // 2) % 4]})
+    return out
+
+
 def oracle_collision(case):
     li = [c03.ditem_unjson(d) for d in case['log']]
     pi = [c03.ditem_unjson(d) for d in case['param']]
@@ -1125,6 +1243,9 @@ def _run_case(case, rng):
     if case.get('kind') == 'collision':
         f = oracle_collision(case)
         return [f] if f else []
+    if case.get('kind') == 'vanished':
+        f = vanished_case(case)
+        return [f] if f else []
     if case.get('kind') == 'collision_empty':
         f = collision_empty_case(case)
         return [f] if f else []
@@ -1181,6 +1302,11 @@ def oracle(ctx, deep=False):
     for case in gen_collision_empty_cases(rng, ctx.scale(40, 300) * (2 if deep else 1)):
         n += 1
         f = collision_empty_case(case)
+        if f:
+            fails.append(f)
+    for case in gen_vanished_cases(rng, ctx.scale(16, 120)):
+        n += 1
+        f = vanished_case(case)
         if f:
             fails.append(f)
     n += oracle_garbage(rng, fails)
